@@ -1,10 +1,18 @@
 // Command c19 runs operations on independent values, and read-only queries on shared values,
 // from several goroutines under the race detector and compares every goroutine's result with
 // the result of the same work done alone (C19).  Build with -race (cfg/C19.json).
+//
+// Every exported function family of the repository has a scenario, so that hidden shared state
+// added anywhere (a package-level memo table or scratch buffer, a cache filled lazily inside an
+// observer) is exercised concurrently and reported by the race detector with a replayable case.
 package main
 
 import (
+	"bytes"
 	"fmt"
+	"os"
+	"os/exec"
+	"path/filepath"
 	"sort"
 	"strconv"
 	"strings"
@@ -14,10 +22,13 @@ import (
 
 	"github.com/Tom-Johnston/mamba/comb"
 	"github.com/Tom-Johnston/mamba/dawg"
+	"github.com/Tom-Johnston/mamba/disjoint"
 	"github.com/Tom-Johnston/mamba/graph"
 	"github.com/Tom-Johnston/mamba/graph/search"
+	"github.com/Tom-Johnston/mamba/ints"
 	"github.com/Tom-Johnston/mamba/itertools"
 	"github.com/Tom-Johnston/mamba/sortints"
+	"github.com/Tom-Johnston/mamba/tsp"
 	"verifharness/hx"
 )
 
@@ -37,36 +48,88 @@ func track() func() {
 	return func() { atomic.AddInt32(&active, -1) }
 }
 
-// runBoth runs the jobs one after the other, then all at once (released together), and
-// reports the first goroutine whose result differs.
-func runBoth(jobs []job, rounds int) (diff string, overlapped bool) {
-	want := make([]string, len(jobs))
+// guarded runs a job; a panic becomes part of the result (a deterministic panic of the code
+// on some input is the same alone and concurrently, and is the business of another property;
+// a panic that only happens concurrently shows up as a difference).
+func guarded(j job) (s string) {
+	defer func() {
+		if e := recover(); e != nil {
+			s = fmt.Sprintf("PANIC %v", e)
+		}
+	}()
+	return j()
+}
+
+const phaseLimit = 60 * time.Second
+
+// runConcurrently releases all jobs together; short jobs are repeated (at most 40 times or
+// 4 ms) so that the goroutines really overlap; a repetition that differs from the goroutine's
+// own first result is kept (it will differ from the reference too).
+func runConcurrently(jobs []job) (got []string, finished bool) {
+	got = make([]string, len(jobs))
+	start := make(chan struct{})
+	var wg sync.WaitGroup
 	for i, j := range jobs {
-		want[i] = j()
+		wg.Add(1)
+		go func(i int, j job) {
+			defer wg.Done()
+			<-start
+			done := track()
+			first := guarded(j)
+			res := first
+			for rep, t0 := 0, time.Now(); rep < 40 && res == first && time.Since(t0) < 4*time.Millisecond; rep++ {
+				res = guarded(j)
+			}
+			got[i] = res
+			done()
+		}(i, j)
+	}
+	close(start)
+	all := make(chan struct{})
+	go func() { wg.Wait(); close(all) }()
+	select {
+	case <-all:
+		return got, true
+	case <-time.After(phaseLimit):
+		return got, false
+	}
+}
+
+// runBoth runs the jobs all at once FIRST (so that a cache filled lazily, in a shared value or
+// in a package-level variable, is still cold when the goroutines meet), then one after the
+// other for the reference results, then concurrently again rounds-1 times; it reports the first
+// goroutine whose result differs from the same work done alone.  seqHang: the work did not
+// even finish alone (nothing to compare; not a matter of this property).
+func runBoth(jobs []job, rounds int) (want []string, diff string, overlapped, seqHang bool) {
+	first, finished := runConcurrently(jobs)
+	want = make([]string, len(jobs))
+	seqDone := make(chan struct{})
+	go func() {
+		for i, j := range jobs {
+			want[i] = guarded(j)
+		}
+		close(seqDone)
+	}()
+	select {
+	case <-seqDone:
+	case <-time.After(phaseLimit):
+		return nil, "", false, true
 	}
 	for r := 0; r < rounds; r++ {
-		got := make([]string, len(jobs))
-		start := make(chan struct{})
-		var wg sync.WaitGroup
-		for i, j := range jobs {
-			wg.Add(1)
-			go func(i int, j job) {
-				defer wg.Done()
-				<-start
-				done := track()
-				got[i] = j()
-				done()
-			}(i, j)
+		got := first
+		if r > 0 {
+			got, finished = runConcurrently(jobs)
 		}
-		close(start)
-		wg.Wait()
+		if !finished {
+			return want, fmt.Sprintf("the %d goroutines did not finish within %v although the same work done alone did", len(jobs), phaseLimit), atomic.LoadInt32(&maxActive) > 1, false
+		}
 		for i := range jobs {
 			if got[i] != want[i] {
-				return fmt.Sprintf("goroutine %d of %d obtained %.300q, alone it obtains %.300q", i, len(jobs), got[i], want[i]), atomic.LoadInt32(&maxActive) > 1
+				return want, fmt.Sprintf("goroutine %d of %d obtained %.300q, alone it obtains %.300q", i, len(jobs), got[i], want[i]), atomic.LoadInt32(&maxActive) > 1, false
 			}
 		}
 	}
-	return "", atomic.LoadInt32(&maxActive) > 1
+	return want, "", atomic.LoadInt32(&maxActive) > 1, false
 }
 
 func randomGraph(r *hx.Rng, n int, num, den int) *graph.DenseGraph {
@@ -140,31 +203,57 @@ func words(r *hx.Rng, count, alpha, maxLen int) [][]byte {
 	return out
 }
 
-func scenario(name string, r *hx.Rng, G int) (jobs []job, extra func() string) {
+func randInts(r *hx.Rng, n, bound int) []int {
+	a := make([]int, n)
+	for i := range a {
+		a[i] = r.Intn(bound)
+	}
+	return a
+}
+
+func identity(n int) []int {
+	p := make([]int, n)
+	for i := range p {
+		p[i] = i
+	}
+	return p
+}
+
+func drain(sb *strings.Builder, next func() bool, value func() []int) {
+	for next() {
+		fmt.Fprint(sb, value())
+	}
+}
+
+func scenario(name string, r *hx.Rng, G int) (jobs []job, extra func(results []string) string) {
 	switch name {
 	case "shards": // the m shards of a split search, in parallel
 		n := r.Range(4, 6)
 		m := G
-		total := int32(0)
 		for a := 0; a < m; a++ {
 			a := a
 			jobs = append(jobs, func() string {
 				var sb strings.Builder
 				it := search.All(n, a, m)
-				c := 0
 				for it.Next() {
 					sb.WriteString(graph.Graph6Encode(it.Value()))
 					sb.WriteByte(' ')
-					c++
 				}
-				atomic.AddInt32(&total, int32(c))
 				return sb.String()
 			})
 		}
-		extra = func() string {
-			// jobs ran once alone and `rounds` times concurrently: every run yields all classes
-			if int(total)%classCounts[n] != 0 {
-				return fmt.Sprintf("shards of n=%d, m=%d yielded %d graphs in total, not a multiple of %d", n, m, total, classCounts[n])
+		extra = func(results []string) string {
+			// the shards partition the isomorphism classes: all graphs distinct, as many as there are classes
+			seen := map[string]bool{}
+			total := 0
+			for _, res := range results {
+				for _, g6 := range strings.Fields(res) {
+					total++
+					seen[g6] = true
+				}
+			}
+			if total != classCounts[n] || len(seen) != total {
+				return fmt.Sprintf("shards of n=%d, m=%d yielded %d graphs (%d distinct), there are %d classes", n, m, total, len(seen), classCounts[n])
 			}
 			return ""
 		}
@@ -192,6 +281,27 @@ func scenario(name string, r *hx.Rng, G int) (jobs []job, extra func() string) {
 				for it.Next() {
 					sb.WriteString(graph.Graph6Encode(it.Value()))
 					sb.WriteByte(' ')
+				}
+				return sb.String()
+			})
+		}
+	case "search-saveload": // own iterators saved, loaded and continued
+		for k := 0; k < G; k++ {
+			n, m := r.Range(4, 5), r.Range(1, 3)
+			a := r.Intn(m)
+			stop := r.Range(1, 6)
+			jobs = append(jobs, func() string {
+				var sb strings.Builder
+				never := func(*graph.DenseGraph) bool { return false }
+				it := search.WithPruning(n, a, m, never, never)
+				for c := 0; c < stop && it.Next(); c++ {
+					sb.WriteString(graph.Graph6Encode(it.Value()))
+				}
+				var buf bytes.Buffer
+				it.Save(&buf)
+				it2 := search.Load(&buf, never, never)
+				for it2.Next() {
+					sb.WriteString(graph.Graph6Encode(it2.Value()))
 				}
 				return sb.String()
 			})
@@ -226,33 +336,48 @@ func scenario(name string, r *hx.Rng, G int) (jobs []job, extra func() string) {
 				return fmt.Sprint(graph.CanonicalIsomorph(sp))
 			})
 		}
+	case "canon-allocated": // CanonicalIsomorphAllocated, every goroutine reusing its own storage
+		for k := 0; k < G; k++ {
+			var gs []*graph.DenseGraph
+			for q := 0; q < 3; q++ {
+				gs = append(gs, randomGraph(r, r.Range(2, 9), r.Range(1, 4), 5))
+			}
+			jobs = append(jobs, func() string {
+				var sb strings.Builder
+				op := graph.NewOrderedPartition(9, 36, nil)
+				st := graph.NewStorage(9, 36)
+				for _, g := range gs {
+					n, m := g.N(), g.M()
+					nb := make([][]int, n)
+					for i := range nb {
+						nb[i] = g.Neighbours(i)
+					}
+					op.Reset(n, m, nil)
+					p, orb, gens := graph.CanonicalIsomorphAllocated(n, m, nb, op, st, new(graph.CanonicalOptions))
+					fmt.Fprintf(&sb, "%v %v %v;", p, orb.SmallestRep(), gens)
+				}
+				return sb.String()
+			})
+		}
 	case "iters": // separate combinatorial iterators
 		for k := 0; k < G; k++ {
-			kind := r.Intn(8)
+			kind := r.Intn(13)
 			a, b := r.Range(3, 7), r.Range(0, 4)
 			jobs = append(jobs, func() string {
 				var sb strings.Builder
 				switch kind {
 				case 0:
 					it := itertools.Combinations(a+2, b)
-					for it.Next() {
-						fmt.Fprint(&sb, it.Value())
-					}
+					drain(&sb, it.Next, it.Value)
 				case 1:
 					it := itertools.CombinationsColex(a+2, b)
-					for it.Next() {
-						fmt.Fprint(&sb, it.Value())
-					}
+					drain(&sb, it.Next, it.Value)
 				case 2:
 					it := itertools.Permutations(a - 1)
-					for it.Next() {
-						fmt.Fprint(&sb, it.Value())
-					}
+					drain(&sb, it.Next, it.Value)
 				case 3:
 					it := itertools.LexicographicPermutations(a - 1)
-					for it.Next() {
-						fmt.Fprint(&sb, it.Value())
-					}
+					drain(&sb, it.Next, it.Value)
 				case 4:
 					it := itertools.Partitions(a)
 					for it.Next() {
@@ -260,18 +385,31 @@ func scenario(name string, r *hx.Rng, G int) (jobs []job, extra func() string) {
 					}
 				case 5:
 					it := itertools.IntegerPartitions(a + 6)
-					for it.Next() {
-						fmt.Fprint(&sb, it.Value())
-					}
+					drain(&sb, it.Next, it.Value)
 				case 6:
 					it := itertools.Product(a, b+1, 2)
-					for it.Next() {
-						fmt.Fprint(&sb, it.Value())
-					}
+					drain(&sb, it.Next, it.Value)
 				case 7:
 					it := itertools.MultisetCombinations([]int{a - 2, b, 2}, 3)
 					for it.Next() {
-						fmt.Fprint(&sb, it.Value())
+						fmt.Fprint(&sb, it.Value(), it.FreqValue())
+					}
+				case 8:
+					it := itertools.MultisetPermutations([]int{2, b%3 + 1, 1})
+					drain(&sb, it.Next, it.Value)
+				case 9: // permutations whose first two entries ascend
+					it := itertools.PermutationsByPattern(a-1, func(p []int) bool { return len(p) < 2 || p[0] < p[1] })
+					drain(&sb, it.Next, it.Value)
+				case 10:
+					it := itertools.RestrictedPrefixPermutations(a-1, func(p []int) bool { return p[len(p)-1] != len(p)-1 })
+					drain(&sb, it.Next, it.Value)
+				case 11:
+					it := itertools.RestrictedPrefixProduct(func(p []int) bool { return len(p) < 2 || p[len(p)-1] != p[len(p)-2] }, a, b+1, 3)
+					drain(&sb, it.Next, it.Value)
+				case 12:
+					it := itertools.TopologicalSorts(a-1, func(i, j int) bool { return i < j && (i+j)%3 == 0 })
+					for it.Next() {
+						fmt.Fprint(&sb, it.Value(), it.InverseValue())
 					}
 				}
 				return sb.String()
@@ -291,6 +429,10 @@ func scenario(name string, r *hx.Rng, G int) (jobs []job, extra func() string) {
 					i, ok := d.Lookup(w)
 					fmt.Fprintf(&sb, "%d%t,", i, ok)
 				}
+				b, err := d.GobEncode()
+				var d2 dawg.Dawg
+				err2 := d2.GobDecode(b)
+				fmt.Fprintf(&sb, "%v %v %d", err, err2, d2.NumberOfWords())
 				return sb.String()
 			})
 		}
@@ -305,6 +447,9 @@ func scenario(name string, r *hx.Rng, G int) (jobs []job, extra func() string) {
 			pat := []byte("a.b..")[:r.Range(1, 5)]
 			ana := []byte("aabbc..")[:r.Range(1, 7)]
 			kind := k % 4
+			if G <= 3 && k < 2 {
+				kind = 0 // few goroutines: at least two of them look words up
+			}
 			jobs = append(jobs, func() string {
 				var sb strings.Builder
 				switch kind {
@@ -330,16 +475,143 @@ func scenario(name string, r *hx.Rng, G int) (jobs []job, extra func() string) {
 		n := r.Range(2, 14)
 		g := randomGraph(r, n, r.Range(1, 4), 5)
 		sp := toSparse(g)
-		views := []graph.Graph{g, sp, graph.Complement(g), graph.Complement(sp), graph.InducedSubgraph(g, r.Perm(n)[:r.Range(1, n)]), graph.InducedSubgraph(sp, r.Perm(n)[:r.Range(1, n)])}
+		views := []graph.Graph{g, sp, graph.Complement(g), graph.Complement(sp), graph.InducedSubgraph(g, r.Perm(n)[:r.Range(1, n)]), graph.InducedSubgraph(sp, r.Perm(n)[:r.Range(1, n)]),
+			graph.Complement(graph.InducedSubgraph(g, r.Perm(n)[:r.Range(1, n)]))}
 		for k := 0; k < G; k++ {
 			v := views[k%len(views)]
 			enc := k%3 == 0
 			jobs = append(jobs, func() string {
 				s := observe(v)
 				if enc {
-					s += graph.Graph6Encode(v) + graph.Sparse6Encode(v)
+					s += graph.Graph6Encode(v) + graph.Sparse6Encode(v) + graph.AdjacencyMatrixEncode(v) + fmt.Sprint(graph.MulticodeEncode(v))
 				}
 				return s
+			})
+		}
+	case "graph-algos-shared": // the read-only algorithms on one shared graph
+		n := r.Range(3, 8)
+		g := randomGraph(r, n, r.Range(2, 4), 5)
+		sp := toSparse(g)
+		reps := []graph.Graph{g, sp, graph.Complement(g)}
+		for k := 0; k < G; k++ {
+			v := reps[r.Intn(len(reps))]
+			bundle := r.Intn(5)
+			seed := int64(r.Intn(1000))
+			u, w := r.Intn(n), r.Intn(n)
+			jobs = append(jobs, func() string {
+				var sb strings.Builder
+				switch bundle {
+				case 0:
+					cn, col := graph.ChromaticNumber(v)
+					ok, col2 := graph.IsKColorable(v, cn)
+					gc, col3 := graph.GreedyColor(v, identity(n))
+					fmt.Fprint(&sb, cn, col, ok, col2, gc, col3, graph.IsProperColouring(v, col), graph.CliqueNumber(v), graph.IndependenceNumber(v))
+					ci, ce := graph.ChromaticIndex(v)
+					fmt.Fprint(&sb, ci, ce)
+				case 1:
+					fmt.Fprint(&sb, graph.Girth(v), graph.Diameter(v), graph.Radius(v), graph.Distance(v, u, w), graph.Eccentricity(v), graph.MaxDegree(v), graph.MinDegree(v))
+					d, order := graph.Degeneracy(v)
+					fmt.Fprint(&sb, d, order)
+				case 2:
+					cc := graph.ConnectedComponents(v)
+					bc, art := graph.BiconnectedComponents(v)
+					fmt.Fprint(&sb, cc, graph.ConnectedComponent(v, u), bc, art, graph.IsPlanar(v), graph.RandomMaximalClique(v, seed))
+				case 3:
+					fmt.Fprint(&sb, graph.NumberOfInducedCycles(v, n), graph.NumberOfInducedPaths(v, n), graph.Equal(v, g), graph.Equal(v, sp))
+					fmt.Fprint(&sb, graph.NumberOfCycles(g), graph.NumberOfCycles(sp), graph.ChromaticPolynomial(g), graph.ChromaticPolynomial(sp))
+				case 4:
+					fmt.Fprint(&sb, graph.Graph6Encode(graph.ComplementDense(v)), graph.Graph6Encode(graph.LineGraphDense(v)))
+					sub := []int{u, (u + 1) % n}
+					fmt.Fprint(&sb, observe(g.InducedSubgraph(sub)), observe(sp.InducedSubgraph(sub)), observe(g.Copy()), observe(sp.Copy()))
+				}
+				return sb.String()
+			})
+		}
+	case "editing-own": // every goroutine edits its own copy of one shared graph
+		n := r.Range(3, 9)
+		g := randomGraph(r, n, 2, 5)
+		sp := toSparse(g)
+		for k := 0; k < G; k++ {
+			dense := r.Bool()
+			ops := randInts(r, r.Range(3, 12), 1000)
+			jobs = append(jobs, func() string {
+				var e graph.EditableGraph
+				if dense {
+					e = g.Copy()
+				} else {
+					e = sp.Copy()
+				}
+				var sb strings.Builder
+				for _, o := range ops {
+					m := e.N()
+					if m < 3 {
+						e.AddVertex(nil)
+						continue
+					}
+					i, j := o%m, (o/m)%m
+					switch (o / 97) % 6 {
+					case 0:
+						if i != j {
+							e.AddEdge(i, j)
+						}
+					case 1:
+						if i != j {
+							e.RemoveEdge(i, j)
+						}
+					case 2:
+						e.AddVertex([]int{i})
+					case 3:
+						e.RemoveVertex(i)
+					case 4:
+						if i != j {
+							graph.Contract(e, i, j)
+						}
+					case 5:
+						if i != j && e.IsEdge(i, j) {
+							graph.SplitEdge(e, i, j)
+						}
+					}
+					sb.WriteString(graph.Graph6Encode(e))
+				}
+				return sb.String() + observe(e)
+			})
+		}
+	case "generators": // every goroutine builds its own graphs
+		for k := 0; k < G; k++ {
+			a, b := r.Range(3, 7), r.Range(1, 3)
+			seed := int64(r.Intn(100000))
+			jobs = append(jobs, func() string {
+				gs := []graph.Graph{graph.CompleteGraph(a), graph.Cycle(a), graph.Path(a), graph.Star(a), graph.HypercubeGraph(b + 1), graph.FoldedHypercubeGraph(b + 1),
+					graph.KneserGraph(a, b), graph.BipartiteKneserGraph(a, b), graph.CirculantGraph(a+2, 1, b), graph.CirculantBipartiteGraph(a, a, 0, b),
+					graph.GeneralisedPetersenGraph(a+2, b), graph.RookGraph(b+1, a-1), graph.FlowerSnark(2*b + 1), graph.FriendshipGraph(b + 1),
+					graph.CompletePartiteGraph(a, b, 1), graph.RandomGraph(a+2, 0.5, seed), graph.RandomTree(a+2, seed)}
+				var sb strings.Builder
+				for _, g := range gs {
+					sb.WriteString(graph.Graph6Encode(g))
+					sb.WriteByte(' ')
+				}
+				return sb.String()
+			})
+		}
+	case "encodings": // encode / decode round trips on own graphs
+		for k := 0; k < G; k++ {
+			g := randomGraph(r, r.Range(1, 12), r.Range(1, 4), 5)
+			seed := int64(r.Intn(100000))
+			tn := r.Range(3, 9)
+			jobs = append(jobs, func() string {
+				var sb strings.Builder
+				s6 := graph.Sparse6Encode(g)
+				g6 := graph.Graph6Encode(g)
+				d1, e1 := graph.Graph6Decode(g6)
+				d2, e2 := graph.Sparse6Decode(s6)
+				mc := graph.MulticodeEncode(g)
+				d3 := graph.MulticodeDecode(mc)
+				many := graph.MulticodeDecodeMultiple(append(append([]byte{}, mc...), mc...))
+				fmt.Fprint(&sb, s6, g6, e1, e2, graph.Equal(d1, g), graph.Equal(d2, g), graph.Equal(d3, g), len(many), graph.AdjacencyMatrixEncode(g))
+				t := graph.RandomTree(tn, seed)
+				p := graph.PruferEncode(t)
+				fmt.Fprint(&sb, p, graph.Equal(graph.PruferDecode(p), t))
+				return sb.String()
 			})
 		}
 	case "comb": // the package-level tables of comb are only read
@@ -356,7 +628,7 @@ func scenario(name string, r *hx.Rng, G int) (jobs []job, extra func() string) {
 					c := comb.Unrank(rk, 3)
 					fmt.Fprintf(&sb, "%v%d;", c, comb.Rank(c))
 				}
-				fmt.Fprint(&sb, comb.Coeffs(base % 20))
+				fmt.Fprint(&sb, comb.Coeffs(base%20))
 				return sb.String()
 			})
 		}
@@ -389,26 +661,97 @@ func scenario(name string, r *hx.Rng, G int) (jobs []job, extra func() string) {
 					sortints.IntersectionSize(a, b), sortints.Complement(31, a), sortints.ContainsSorted(a, b), sortints.ContainsSingle(a, 7), a, b)
 			})
 		}
+	case "sortints-own": // mutating methods on own sets (the argument sets are shared and only read)
+		shared := sortints.NewSortedInts(r.Perm(40)[:r.Range(0, 20)]...)
+		for k := 0; k < G; k++ {
+			init := r.Perm(40)[:r.Range(0, 20)]
+			adds := randInts(r, r.Range(1, 8), 50)
+			rem := r.Intn(40)
+			jobs = append(jobs, func() string {
+				s := sortints.NewSortedInts(init...)
+				s.Add(adds...)
+				s.Remove(rem)
+				s.Union(shared)
+				t := sortints.Range(rem, rem+20, 3)
+				t.Union(s)
+				return fmt.Sprint(s, t, adds, init)
+			})
+		}
+	case "ints": // in-place functions on own slices, reading functions on shared ones
+		sharedA := randInts(r, r.Range(1, 30), 20)
+		sharedB := append(append([]int{}, sharedA[:len(sharedA)/2]...), 99)
+		for k := 0; k < G; k++ {
+			own := randInts(r, r.Range(1, 200), 1000)
+			jobs = append(jobs, func() string {
+				a := append([]int{}, own...)
+				ints.Sort(a)
+				b := append([]int{}, own...)
+				ints.Reverse(b)
+				c := append([]int{}, own...)
+				ints.Add(c, a)
+				return fmt.Sprint(a, b, c, ints.Max(sharedA), ints.Min(sharedA), ints.Sum(sharedA), ints.Compare(sharedA, sharedB), ints.Equal(sharedA, sharedB),
+					ints.HasPrefix(sharedA, sharedB[:len(sharedB)-1]))
+			})
+		}
+	case "disjoint": // own disjoint-set forests
+		for k := 0; k < G; k++ {
+			n := r.Range(1, 30)
+			us := randInts(r, r.Range(0, 40), n*n)
+			jobs = append(jobs, func() string {
+				s := disjoint.New(n)
+				t := disjoint.New(n)
+				buf := make([]int, 0, n)
+				var sb strings.Builder
+				for _, u := range us {
+					x, y := u%n, u/n
+					s.Union(x, y)
+					t.UnionBuffered(x, y, buf)
+					fmt.Fprint(&sb, s.Find(x) == s.Find(y), t.FindBuffered(x, buf) == t.FindBuffered(y, buf))
+				}
+				fmt.Fprint(&sb, s.Sets(), s.SmallestRep(), s.String(), len(s.Roots()), t.Sets())
+				return sb.String()
+			})
+		}
+	case "tsp": // LIB into own buffers with a shared, pure weight function
+		salt := r.Intn(1000)
+		weights := func(i, j int) int { return (i*31+j*17+salt)%97 + 1 }
+		for k := 0; k < G; k++ {
+			n := r.Range(0, 9)
+			jobs = append(jobs, func() string {
+				var buf bytes.Buffer
+				err := tsp.LIB(&buf, n, weights)
+				return fmt.Sprint(buf.String(), err)
+			})
+		}
 	default:
 		panic("unknown scenario " + name)
 	}
 	return
 }
 
-var scenarios = []string{"shards", "shards-pruned", "canon", "canon-shared-graph", "iters", "builders", "dawg-shared", "graph-shared", "comb", "cliques", "sortints-shared"}
+var scenarios = []string{"shards", "shards-pruned", "search-saveload", "canon", "canon-shared-graph", "canon-allocated", "iters", "builders", "dawg-shared",
+	"graph-shared", "graph-algos-shared", "editing-own", "generators", "encodings", "comb", "cliques", "sortints-shared", "sortints-own", "ints", "disjoint", "tsp"}
 
-func exec(line string) hx.Result {
+func exec1(line string) hx.Result {
 	f := strings.Split(line, ";")
+	if len(f) != 4 {
+		return hx.Result{Obs: "bad-case"}
+	}
 	seed, _ := strconv.ParseUint(f[1], 10, 64)
 	G, _ := strconv.Atoi(f[2])
 	rounds, _ := strconv.Atoi(f[3])
 	r := hx.NewRng(seed)
 	atomic.StoreInt32(&maxActive, 0)
 	jobs, extra := scenario(f[0], r, G)
-	diff, overlapped := runBoth(jobs, rounds)
+	want, diff, overlapped, seqHang := runBoth(jobs, rounds)
 	res := hx.Result{Obs: "ok", Nontrivial: overlapped && len(jobs) >= 2, Buckets: []string{"scenario:" + f[0], "goroutines=" + f[2]}}
+	if seqHang {
+		res.Nontrivial = false
+		res.Buckets = append(res.Buckets, "outcome:not-finished-even-alone")
+		return res
+	}
 	if diff == "" && extra != nil {
-		diff = extra()
+		diff = extra(want)
 	}
 	if diff != "" {
 		res.Obs = "diff"
@@ -417,8 +760,51 @@ func exec(line string) hx.Result {
 	return res
 }
 
+// selfTest runs the fail-closed self-test of the effects translator (tools/gotrans) and
+// returns a one-line summary for the evidence notes.  It is not an observation of the
+// repository: a failure means the check itself lost strength, and is reported as a note.
+func selfTest() string {
+	exe, err := os.Executable()
+	if err != nil {
+		return "translator self-test: not run (" + err.Error() + ")"
+	}
+	dir := filepath.Dir(exe)
+	for i := 0; i < 6; i++ {
+		if _, err := os.Stat(filepath.Join(dir, "tools", "gotrans", "effects_test.go")); err == nil {
+			break
+		}
+		dir = filepath.Dir(dir)
+	}
+	td := filepath.Join(dir, "tools", "gotrans")
+	if _, err := os.Stat(filepath.Join(td, "effects_test.go")); err != nil {
+		return "translator self-test: not run (tools/gotrans not found from " + exe + ")"
+	}
+	cmd := exec.Command("go", "test", "-count=1", "-run", "TestEffectsFailClosed", "-v", ".")
+	cmd.Dir = td
+	cmd.Env = append(os.Environ(), "GOFLAGS=-mod=mod", "GOPROXY=off", "GOSUMDB=off", "GOTOOLCHAIN=local")
+	done := make(chan struct{})
+	var out []byte
+	go func() { out, err = cmd.CombinedOutput(); close(done) }()
+	select {
+	case <-done:
+	case <-time.After(15 * time.Minute):
+		cmd.Process.Kill()
+		return "translator self-test: timed out"
+	}
+	s := string(out)
+	pass, fail, skip := strings.Count(s, "--- PASS: TestEffectsFailClosed/"), strings.Count(s, "--- FAIL: TestEffectsFailClosed/"), strings.Count(s, "--- SKIP: TestEffectsFailClosed/")
+	if err != nil || fail > 0 {
+		tail := s
+		if len(tail) > 600 {
+			tail = tail[len(tail)-600:]
+		}
+		return fmt.Sprintf("translator self-test FAILED (%d mutations broke the build as expected, %d did not, %d skipped): %s", pass, fail, skip, tail)
+	}
+	return fmt.Sprintf("translator self-test: %d seeded source mutations each changed the regenerated table and broke the Coq build at the expected lemma (%d skipped: anchor not found)", pass, skip)
+}
+
 func gen(g *hx.Gen) {
-	per := g.Pick(6, 60)
+	per := g.Pick(4, 40)
 	for _, s := range scenarios {
 		for i := 0; i < per; i++ {
 			G := []int{2, 3, 4, 5, 8, 16}[g.Rng.Intn(6)]
@@ -428,16 +814,19 @@ func gen(g *hx.Gen) {
 			g.Emit(fmt.Sprintf("%s;%d;%d;%d", s, g.Rng.U64()%1000000, G, g.Pick(2, 4)))
 		}
 	}
+	if g.Thorough() && os.Getenv("VERIF_REPO") == "" && os.Getenv("C19_NO_SELFTEST") == "" {
+		g.Note(selfTest())
+	}
 }
 
 func main() {
 	hx.Main(hx.Prop{
 		Rule:        "case = scenario, seed, number of goroutines, rounds; every goroutine's result is compared with the same work done alone, under the race detector; non-trivial = at least two goroutines were observed inside their work at the same time (shared atomic counter); distinct by case text",
 		Gen:         gen,
-		Exec:        exec,
-		CaseTimeout: 120 * time.Second,
+		Exec:        exec1,
+		CaseTimeout: 200 * time.Second,
 		Workers:     3,
 		MemMB:       0,
-		WorkerEnv:   []string{"GORACE=halt_on_error=1 exitcode=66", "GOMAXPROCS=8"},
+		WorkerEnv:   []string{"GORACE=halt_on_error=1 exitcode=66 atexit_sleep_ms=0", "GOMAXPROCS=8"},
 	})
 }
